@@ -243,13 +243,24 @@ func (ex *Exec) resultVal(st *State, sig *types.Signature, what string) Val {
 
 // havocAll forgets every heap component and ghost variable.
 func (ex *Exec) havocAll(st *State, ghost bool) {
+	var gs *ghostSet
+	if ghost {
+		gs = &ghostSet{all: true}
+	}
+	ex.havocAllG(st, gs)
+}
+
+// havocAllG forgets every heap component and the ghost variables in gs.
+func (ex *Exec) havocAllG(st *State, gs *ghostSet) {
 	vc := ex.vc
 	vc.counter++
 	st.epoch = vc.counter
 	st.heap = map[string]Term{}
-	if ghost {
-		for g := range vc.prog.contracts.Ghosts {
-			ex.havocGhost(st, g)
+	if gs != nil {
+		for _, g := range sortedKeys(vc.prog.contracts.Ghosts) {
+			if gs.has(g) {
+				ex.havocGhost(st, g)
+			}
 		}
 	}
 	for c := range st.shared {
@@ -290,8 +301,16 @@ func (ex *Exec) havocCall(fr *Frame, callee *ssa.Function, sig *types.Signature,
 		name = vc.prog.funcName(callee)
 	}
 	if wide {
-		vc.note("havoc-all call %s at %s", name, ex.where())
-		ex.havocAll(st, true)
+		gs := &ghostSet{all: true}
+		if callee != nil {
+			gs = vc.prog.mayModifyGhosts(callee)
+		}
+		if gs.all {
+			vc.note("havoc-all call %s at %s (heap and all ghost state)", name, ex.where())
+		} else {
+			vc.note("havoc-all call %s at %s (heap; ghost state it can reach: %v)", name, ex.where(), sortedKeys(gs.set))
+		}
+		ex.havocAllG(st, gs)
 	} else {
 		closure := false
 		for _, a := range args {
@@ -410,9 +429,30 @@ func (ex *Exec) invoke(fr *Frame, site ssa.Instruction, common *ssa.CallCommon, 
 		k(st, tv(vc.fresh("str", SStr)), false)
 		return
 	}
-	vc.note("interface call %s at %s has no iface contract: havoc-all", name, ex.where())
 	sig := common.Method.Type().(*types.Signature)
-	ex.havocAll(st, true)
+	gs := &ghostSet{set: map[string]bool{}}
+	if nt, ok := types.Unalias(it).(*types.Named); ok && nt.Obj().Pkg() != nil && vc.prog.inRepoPath(nt.Obj().Pkg().Path()) {
+		ts := vc.prog.ifaceTargets(common)
+		if len(ts) == 0 {
+			gs.all = true
+		}
+		for _, t := range ts {
+			gs.add(vc.prog.mayModifyGhosts(t))
+		}
+		vc.note("interface call %s at %s has no iface contract: havoc of the heap and of the ghost state its implementations can reach", name, ex.where())
+		ex.havocAllG(st, gs)
+	} else {
+		// library interface (io.Writer, http.ResponseWriter, context.Context, ...): its implementations are
+		// assumed not to call back into the ledger; objects passed by pointer are havocked
+		vc.usedExt["library interface method "+name+" (no contract: result unconstrained, no effect on repository state)"] = true
+		for i, a := range args {
+			var at types.Type
+			if i < sig.Params().Len() {
+				at = sig.Params().At(i).Type()
+			}
+			ex.havocReachable(st, a, at)
+		}
+	}
 	k(st, ex.resultVal(st, sig, "res_"+sanitize(common.Method.Name())), false)
 }
 
